@@ -60,6 +60,9 @@ def dedicated_impls_override_both(crates):
     return {"serialize_tagged", "deserialize_tagged"} <= opt and {"serialize_tagged", "deserialize_tagged"} <= vec
 
 
+FN_FLOOR = 105
+
+
 def thorough_extra(ctx, chk):
     """Thorough tier: the derive-generated decoders of the integration-test structs (zvt/tests/derive.rs,
     type-checked with --tests) are analysed like the shipped ones."""
@@ -147,7 +150,8 @@ def run(ctx, chk, only=None, prop="C02"):
         chk.floor("sites in scope", n_sites, 150)
         chk.floor("loops classified", n_loops, 45)
         chk.floor("decoder Ok-returns checked against the suffix contract", n_k, 97)
-        chk.floor("bodies in scope", len(sc), 230)
+        # functions, not closures: a refactoring may add or remove closures freely
+        chk.floor("functions in scope", len([b for b in sc.values() if b.raw["defkind"] in ("Fn", "AssocFn")]), FN_FLOOR)
         chk.trusted.extend(["std/chrono/hex/yore functions called on the decode path are total (from_ymd_opt, and_hms_opt, "
                             "String::from_utf8, CP437.decode, encode_hex, HashSet ops)",
                             "slice lengths never exceed isize::MAX"])
